@@ -77,6 +77,9 @@ var (
 
 	OrbiterAddr = core.ModuleAddress
 	DustAddr    = authtypes.NewModuleAddress(core.DustCollectorName)
+	WarpAddr    = authtypes.NewModuleAddress(warptypes.ModuleName)
+	CCTPAddr    = cctptypes.ModuleAddress
+	FTFAddr     = authtypes.NewModuleAddress(ftftypes.ModuleName)
 
 	UserNames = []string{"alice", "bob", "carol", "dave", "erin", "frank"}
 
